@@ -1,19 +1,75 @@
 package main
 
 import (
+	"flag"
 	"fmt"
-	"golang.org/x/tools/go/packages"
-	"golang.org/x/tools/go/ssa"
-	"golang.org/x/tools/go/ssa/ssautil"
+	"os"
+	"strings"
+
+	"govc/vc"
 )
 
 func main() {
-	cfg := &packages.Config{Mode: packages.LoadAllSyntax, Dir: "/repo"}
-	pkgs, err := packages.Load(cfg, "./...")
-	if err != nil {
-		panic(err)
+	if len(os.Args) < 2 {
+		fmt.Fprintln(os.Stderr, "usage: govc fn <key>... | check <id> <tier>")
+		os.Exit(2)
 	}
-	prog, spkgs := ssautil.AllPackages(pkgs, ssa.NaiveForm|ssa.InstantiateGenerics)
-	prog.Build()
-	fmt.Println(len(spkgs))
+	switch os.Args[1] {
+	case "fn":
+		cmdFn(os.Args[2:])
+	default:
+		fmt.Fprintln(os.Stderr, "unknown command")
+		os.Exit(2)
+	}
+}
+
+func cmdFn(args []string) {
+	fs := flag.NewFlagSet("fn", flag.ExitOnError)
+	repo := fs.String("repo", "/repo", "")
+	spec := fs.String("spec", "/verif/spec", "")
+	work := fs.String("work", "/verif/work/dev", "")
+	timeout := fs.Int("timeout", 10, "")
+	verbose := fs.Bool("v", false, "")
+	fs.Parse(args)
+	s, err := vc.NewSession(*repo, *spec, *work)
+	if err != nil {
+		fmt.Fprintln(os.Stderr, "error:", err)
+		os.Exit(2)
+	}
+	s.TimeoutS = *timeout
+	var results []*vc.FuncResult
+	for _, k := range fs.Args() {
+		if !strings.HasPrefix(k, vc.ModulePath) {
+			k = vc.ModulePath + "/" + k
+		}
+		results = append(results, s.Generate(k)...)
+	}
+	s.DischargeAll(results, "fn")
+	for _, r := range results {
+		fmt.Printf("== %s  paths=%d returns=%d obligations=%d\n", r.Key, r.Paths, r.Returns, len(r.Obligations))
+		if r.Error != "" {
+			fmt.Println("   ERROR:", r.Error)
+		}
+		for _, u := range r.Unsupported {
+			fmt.Println("   UNSUPPORTED:", u)
+		}
+		if len(r.Inlined) > 0 {
+			fmt.Println("   inlined:", r.Inlined)
+		}
+		if len(r.Unmodelled) > 0 {
+			fmt.Println("   unmodelled:", r.Unmodelled)
+		}
+	}
+	for _, sm := range vc.Summarize(results) {
+		mark := "ok  "
+		if sm.Status != "unsat" {
+			mark = "FAIL"
+		}
+		if *verbose || sm.Status != "unsat" {
+			fmt.Printf("%s %-70s x%d %s %.2fs %v\n", mark, sm.Name, sm.Instances, sm.Status, sm.Time, sm.Solvers)
+			for _, f := range sm.Failed {
+				fmt.Printf("       %s %s %s\n", f.Status, f.File, f.Detail)
+			}
+		}
+	}
 }
